@@ -21,4 +21,7 @@ pub enum Error {
     /// An unexpected RPSL object type was received.
     #[error("unexpected RPSL object {0}")]
     RpslObjectClass(RpslObject),
+    /// The expression uses an RPSL construct that cannot be evaluated.
+    #[error("unsupported RPSL construct: {0}")]
+    Unsupported(&'static str),
 }
